@@ -1463,6 +1463,10 @@ func c26EntryShape(m protoreflect.Message, mode string) string {
 			}
 		}
 	}
+	// the seeded swamps live on island c26Island: the same name on another island (an entry built without its IslandID) does not exist
+	if fd := get("IslandID"); fd != nil && m.Get(fd).Uint() != c26Island {
+		exist = false
+	}
 	keys := "O"
 	if fd := get("Keys"); fd != nil && fd.IsList() {
 		l := m.Get(fd).List()
